@@ -238,6 +238,13 @@ def run_resume(ck, rng, quick):
             b = a + rng.range(2, 4)
             k = max(k, 3)
         lines = ["cfg k=%d w=8 handlers=64 lowq=%d highq=10" % (k, lowq), "start", "connect c0 10.0.0.1:1000", "tick", "rx c0 " + apci.STARTDT_ACT.hex(), "tick"]
+        wrapped = (i % 5 == 1 and lowq == 100 and b - a >= 2)
+        if wrapped:
+            # the unacknowledged events straddle the 32767 -> 0 wrap of N(S) and the client repeats its last acknowledgement before
+            # the connection is lost
+            k = 12
+            lines[0] = "cfg k=12 w=8 handlers=64 lowq=100 highq=10"
+            lines.insert(5, "poke c0 vs=%d vr=0" % (32768 - a - rng.range(1, b - a - 1 if b - a > 2 else 1)))
         if lowq < 100:
             # one event at a time, each acknowledgement leaves the newest one unacknowledged: the ring never runs empty (it would start
             # at offset 0 again), its head moves up and the entries wrap; event `a` stays unacknowledged
@@ -253,6 +260,8 @@ def run_resume(ck, rng, quick):
         for e in range(a + (2 if lowq < 100 else 1), b + 1):
             lines.append("enq " + c07.ev_asdu(e, esz).hex())
         lines.append("tick %d" % (b - a + 1))
+        if wrapped:
+            lines += ["rxs c0 %d" % -(b - a), "tick"]
         if how.startswith("stopdt"):
             lines += ["rx c0 " + apci.STOPDT_ACT.hex(), "tick"]
         if how.endswith("peerclose"):
